@@ -12,6 +12,10 @@ CLAIMS = {
   "For any coordinate type and candidate function: generate_connectivty yields the perception of the current coordinates whatever the record held; symbols -> set_coordinates -> generate_connectivty equals the file constructor's molecule field for field; for EVERY call history ending in generate_connectivty (resp. a successful set_bond_orders m) the connectivity is the perception of the current coordinates (resp. exactly what m specifies) — nothing stale survives; wrong-length coordinate lists are refused with the state unchanged; build_3d refuses multi-atom molecules without bonds; a model without the clear is refuted by a two-call witness. The model reproduces the wrapper's full state after every call of random call sequences.",
   TB + "Modelled: wrapper methods (corresponded on call sequences through the hook). File text handling is C13/C14.",
   "Lean 4 proof (state machine, all call histories) + op-sequence correspondence through the wrapper hook", "DESIGN.md §5 C17"),
+ "C19": ("proof",
+  "PARTIAL. Proved on the model of build_3d, for every enumeration of the bond set, every random placement and every outcome of the intermediate optimisations: the final bond set with orders, the atoms and all derived connectivity equal the initial ones; the optimiser budgets are 20 and 500 (C05 bounds the gradient requests). Explored, not proved: the geometric quality of the embedded structure (bond lengths within 25 % of the radii sum, no pair closer than 0.3 A, finite), evaluated on real builds of real molecules' bond graphs with the builder's own random starts.",
+  TB + "Geometric half is exploration of a randomised floating-point procedure (thread_rng is not seedable: failures are replayed by their bond table and result).",
+  "Lean 4 proof of the structural half on a build_3d model + exploration of real builds for the geometric half", "DESIGN.md §5 C19"),
  "C20": ("proof",
   "All 118 elements: symbol/number bijection, period, IUPAC group, main-group flag, Cordero radii, lookup defaults — proved by kernel evaluation (decide +kernel) over the whole finite domain on tables regenerated from /repo each run; hand-modelled lookup functions tied by exhaustive correspondence (Z=0..130, all symbols).",
   TB + "Hand-transcribed reference data (IUPAC symbols, Cordero 2008) is an oracle.",
@@ -64,6 +68,10 @@ CLAIMS = {
   "For any list of lines and any token parsers: a reader success returns element and coordinate lists that are projections of one list of per-line results (equal length, entry i from the same line), never empty; well-formed files (blank lines, any spacing, trailing columns) are read exactly in file order; files without a readable atom line are refused. Proved on the hand model, which reproduces the real reader's outcome on well-formed and corrupted files (invalid UTF-8, CRLF, Unicode spaces, every exponent spelling) including exact coordinate bits.",
   TB + "Modelled: BufRead::lines / split_whitespace / str::parse by documented behaviour (corresponded).",
   "Lean 4 proof (all texts, abstract token parsers) + model/code correspondence on well-formed and corrupted files", "DESIGN.md §5 C14"),
+ "C15": ("proof",
+  "PARTIAL. Proved on the model of cli::run + clap definition + suffix check: an unknown force-field name or a non-.xyz input is refused and the file system is unchanged (also a pre-existing opt.xyz); a success writes exactly optimise(ff, read(file)) to opt.xyz and nothing else; UFF is the default and RB is selected by every spelling of the option. Observed, not proved: exit status, working-directory effects and clap — by running the real binary in fresh directories over option spellings x inputs and comparing opt.xyz with the library optimiser to the written precision.",
+  TB + "Process and file-system behaviour observed only. Reader/writer is C13/C14, optimiser C05.",
+  "Lean 4 proof of the decision logic on a CLI model + process-level conformance runs of the real binary", "DESIGN.md §5 C15"),
  "C16": ("proof",
   "For every N and every matrix: set_bond_orders yields exactly the bonds {(i,j,order m[i][j]) : i<j, entry non-zero} in the model of the loop (row = k / N), everything else re-derived from them on a cleared record; wrong size and unsupported upper-triangle values rejected. Model tied to the wrapper (driven from Rust through the hook) by exhaustive correspondence over all symmetric matrices on the order alphabet for N≤3 (quick) / N≤4 (thorough) plus random/asymmetric/malformed ones.",
   TB + "Modelled: the wrapper loop and the float tolerance classification (corresponded). A panic is read as rejection.",
